@@ -88,7 +88,8 @@ type Pop struct {
 	Entries [][]*Pop `json:"entries,omitempty"` // group
 	// Build: how the application assembles this component / group (see build.Fill):
 	// component 0 = populated in place, 1 = a fresh component populated and then put
-	// into its slot with Set, 2 = put into its slot first and populated afterwards;
+	// into its slot with Set, 2 = put into its slot first and populated afterwards,
+	// 3 = kept as a plain fix.Items block (not a *fix.Component) put into its slot;
 	// group 0 = entries made from explicit items, populated, then added; 1 = entry
 	// component added first (AddEntry(entry.Items())) and populated afterwards through
 	// the entry; 2 = entries made from Group.AsTemplate(), populated, then added;
